@@ -6,11 +6,71 @@ from .common import CODECS
 ALL = CODECS
 
 
-def okb(profile):
-    return [{"name": "codec_ok(%s)" % c, "expr": "codec_okb %s" % c} for c in CODECS]
+from . import decls as D
 
+OKB_MEANING = ("(clause, byte-or-item): 1 BITS outside 1..8 | 2 duplicate items | 3 item fails its own "
+               "round trip | 4 try_from_bits accepts a byte inconsistently with unsafe_from_bits/width | "
+               "5 try_from_ascii accepts a byte that is not an item or disagrees with unsafe_from_ascii | "
+               "6 two items share a display character")
+
+
+def okb(profile, lift=False):
+    return [{"name": "codec_ok(%s)" % c, "expr": "codec_okb %s" % c,
+             "witness": "codec_ok_witness %s" % c, "witness_meaning": OKB_MEANING,
+             "lift": (["C05.C05_tables_consistent %s @INST" % c] if lift else [])} for c in CODECS]
+
+
+def write_decls():
+    """Translator (b): coq/gen/Decls.v from the enum declarations in the .rs sources."""
+    import os
+    from .common import GEN, coqc, CheckError
+    ds = D.builtin_decls()
+    path = os.path.join(GEN, "Decls.v")
+    with open(path, "w") as f:
+        f.write("(* GENERATED from the #[derive(Codec)] enums of /repo. *)\n"
+                "From Coq Require Import List NArith Bool.\nFrom BioSeq Require Import Bits Codec Tables Derive.\n"
+                "Import ListNotations.\nOpen Scope N_scope.\n")
+        for k, d in ds.items():
+            if d is not None:
+                f.write("Definition decl_%s : decl := %s.\n" % (k, D.decl_coq(d)))
+    p = coqc(path)
+    if p.returncode != 0:
+        raise CheckError("Decls.v does not compile: " + (p.stdout + p.stderr)[-2000:])
+    return ds
+
+
+def inst_C05(profile):
+    obs = okb(profile, lift=True)
+    for c, chk, thm in [("dna", "dna_check", "C05_dna_alphabet"), ("iupac", "iupac_check", "C05_iupac_nucleotide_sets"),
+                        ("amino", "amino_check", "C05_amino_codons"), ("text", "text_check", "C05_text_literal_bytes"),
+                        ("degen", "degen_check", "C05_degenerate_strong_weak")]:
+        obs.append({"name": "documented alphabet of %s" % c, "expr": "%s %s" % (chk, c),
+                    "lift": ["C05.%s %s @INST" % (thm, c)]})
+    for c in ("dna", "iupac", "mdna", "miupac", "degen"):
+        obs.append({"name": "complement letters of %s" % c, "expr": "comp_letters_check %s" % c,
+                    "lift": ["C05.C05_complement_letters %s @INST" % c]})
+    ds = write_decls()
+    for c, d in ds.items():
+        if d is None:
+            continue
+        obs.append({"name": "derived codec %s implements its enum declaration (codes, alternatives, display "
+                            "characters; every other byte refused)" % c,
+                    "expr": "derives_to (width_of_tables width_none width_attr) decl_%s %s" % (c, c)})
+    return obs
+
+
+
+C05_THEOREMS = ["C05_tables_consistent", "C05_dna_alphabet", "C05_iupac_nucleotide_sets", "C05_amino_codons",
+                "C05_text_literal_bytes", "C05_degenerate_strong_weak", "C05_complement_letters"]
 
 REGISTRY = {
+    "C05": dict(theorems=C05_THEOREMS, instances=inst_C05, exhaustive=True,
+                imports=["Bits", "Codec", "Tables", "Spec", "Derive", "C05Check"],
+                extra_imports=["From BioSeqProps Require Import C05.", "From BioSeqGen Require Import Decls."],
+                rule="complete enumeration inside the kernel: every obligation is a boolean sweep over all 256 byte "
+                     "values (as ASCII input and as bit pattern) of one codec's regenerated tables, for the dev and "
+                     "the release build; evaluations = table entries swept",
+                notes=["text::Dna::try_from_bits accepts every byte: documented ('a literal interpretation of bytes')"]),
     "C01": dict(theorems=[], instances=okb, generators=[(c, P.gen_C01) for c in ALL]),
     "C02": dict(theorems=[], instances=okb, generators=[(c, P.gen_C02) for c in ALL]),
     "C03": dict(theorems=[], instances=okb, generators=[(c, P.gen_C03) for c in ALL]),
